@@ -518,6 +518,33 @@ M('C03', 'apply_local_op normalises the labels of the operator in place', MPS,
   'OWN-param-icall')
 
 # ---------------------------------------------------------------- C11
+M('C11', 'overlap reads the raw range of the other operand (original defect)', MPO,
+  "other.L + 2 * other_max_range)", "other.L + 2 * other.max_range)", 'RANGE-sanitised')
+M('C11', 'to_TermList compares the raw IdR (original defect)', MPO,
+  "                    IdR = IdR % W.get_leg('wR').ind_len  # may be stored as a negative index",
+  "                    pass", 'ID-normalised')
+M('C11', 'to_TermList carries the narrowed range (original defect)', MPO,
+  """            max_range_i = max_range
+            if self.finite:
+                max_range_i = min(max_range, L - i - 1)  # (don't narrow it for later `start`)
+            for k in range(max_range_i + 1):""",
+  """            if self.finite:
+                max_range = min(max_range, L - i - 1)
+            for k in range(max_range + 1):""", 'RANGE-loop-carried')
+M('C11', 'sum of MPOs: range is the max of the known ranges (seed a)', MPO,
+  """        if self.max_range is not None and other.max_range is not None:
+            max_range = max(self.max_range, other.max_range)
+        else:
+            max_range = None""",
+  """        known_ranges = [r for r in (self.max_range, other.max_range) if r is not None]
+        max_range = max(known_ranges) if known_ranges else None""", 'RANGE-derived')
+M('C11', 'sum of MPOs: equivalent conditional expression', MPO,
+  """        if self.max_range is not None and other.max_range is not None:
+            max_range = max(self.max_range, other.max_range)
+        else:
+            max_range = None""",
+  """        unknown = self.max_range is None or other.max_range is None
+        max_range = None if unknown else max(self.max_range, other.max_range)""", None, 'silent')
 M('C11', 'MPO addition ignores differing explicit_plus_hc', MPO,
   "        if self.explicit_plus_hc != other.explicit_plus_hc:\n            raise ValueError('Can not add MPOs with different explicit_plus_hc flags')\n",
   "", 'HCFLAG-derived')
